@@ -241,9 +241,13 @@ func ruleC01SnapshotWindow(c *Ctx) {
 			continue
 		}
 		fl := c.flow(f)
+		sizeExempt := sizeCarriedInRecord(c, f, fl, ws.h, slice)
 		// the copy variable (hdrToAppend) must not be modified after it was taken either
 		kill := func(n ast.Node) bool {
 			if isSnapshotAppend(info, f, n, slice, ws.h) {
+				return false
+			}
+			if sizeExempt[n] {
 				return false
 			}
 			if storesThrough(info, n, ws.h) {
@@ -867,4 +871,101 @@ func (c *Ctx) statSubject(stat *FuncInfo, info *types.Info, call *ast.CallExpr, 
 		return nil
 	}
 	return call.Args[idx]
+}
+
+// sizeCarriedInRecord: the one field of a header whose value also travels in a PAX record is Size - the indexer takes the
+// size from STFS.UncompressedSize whenever the record is present (C03 "restore logical size" pins that), for the snapshot and
+// for the record read back from the tape alike. A store to h.Size behind the snapshot therefore changes nothing the index
+// can see, provided the record was stored from h.Size on every path before the snapshot and before that store, and h.Size
+// was not stored in between. Returns the assignments to h.Size that qualify.
+func sizeCarriedInRecord(c *Ctx, f *FuncInfo, fl *Flow, h, slice types.Object) map[ast.Node]bool {
+	out := map[ast.Node]bool{}
+	key := c.extObjRepo("internal/records", "STFSRecordUncompressedSize")
+	if key == nil || h == nil {
+		return out
+	}
+	info := f.Pkg.TypesInfo
+	isSizeOfH := func(e ast.Expr) bool {
+		se, ok := ast.Unparen(e).(*ast.SelectorExpr)
+		return ok && se.Sel.Name == "Size" && objOfIdent(info, se.X) == h
+	}
+	isSizeStore := func(n ast.Node) bool {
+		as, ok := n.(*ast.AssignStmt)
+		if !ok {
+			return false
+		}
+		for _, l := range as.Lhs {
+			if isSizeOfH(l) {
+				return true
+			}
+		}
+		return false
+	}
+	isRecStore := func(n ast.Node) bool {
+		as, ok := n.(*ast.AssignStmt)
+		if !ok || len(as.Lhs) != 1 || len(as.Rhs) != 1 {
+			return false
+		}
+		ix, ok := ast.Unparen(as.Lhs[0]).(*ast.IndexExpr)
+		if !ok || !usesObjExpr(info, ix.Index, key) {
+			return false
+		}
+		px, ok := ast.Unparen(ix.X).(*ast.SelectorExpr)
+		if !ok || px.Sel.Name != "PAXRecords" || objOfIdent(info, px.X) != h {
+			return false
+		}
+		from := false
+		ast.Inspect(as.Rhs[0], func(m ast.Node) bool {
+			if e, ok := m.(ast.Expr); ok && isSizeOfH(e) {
+				from = true
+			}
+			return true
+		})
+		return from
+	}
+	var cands, snaps []ast.Node
+	for _, b := range fl.G.Blocks {
+		for _, n := range b.Nodes {
+			if as, ok := n.(*ast.AssignStmt); ok && len(as.Lhs) == 1 && isSizeOfH(as.Lhs[0]) {
+				cands = append(cands, n)
+			}
+			if isSnapshotAppend(info, f, n, slice, h) {
+				snaps = append(snaps, n)
+			}
+		}
+	}
+	for _, n := range cands {
+		if ok, _ := fl.dominatedBy(n, isRecStore, isSizeStore); !ok {
+			continue
+		}
+		// every snapshot this store can follow was itself taken behind the record store
+		all := true
+		for _, sn := range snaps {
+			sn := sn
+			may := &Analysis{Must: false, Entry: 0, Node: func(m ast.Node, st State) State {
+				if m == sn {
+					return st | 1
+				}
+				if as, ok := m.(*ast.AssignStmt); ok {
+					for _, l := range as.Lhs {
+						if id, ok := l.(*ast.Ident); ok && (info.Defs[id] == h || info.Uses[id] == h) {
+							return st &^ 1 // h names another header from here on (the next member of the loop)
+						}
+					}
+				}
+				return st
+			}}
+			fl.solve(may)
+			if st, reach := fl.before(may, n); !reach || st&1 == 0 {
+				continue // no path leads from this snapshot to the store
+			}
+			if ok, _ := fl.dominatedBy(sn, isRecStore, isSizeStore); !ok {
+				all = false
+			}
+		}
+		if all {
+			out[n] = true
+		}
+	}
+	return out
 }
